@@ -117,7 +117,12 @@ def args_from_model(owner, model, vc):
         sig = inspect.signature(owner.fn_inner)
     else:
         sig = inspect.signature(owner.fn)
-        names = [n for n in sig.parameters]
+        names = []
+        for n, prm in sig.parameters.items():
+            if prm.kind is inspect.Parameter.VAR_KEYWORD:
+                names += [k for k in owner.params if k != "canary" and k not in sig.parameters]      # `**values` theorems
+            else:
+                names.append(n)
         consts = {k: v.kw["value"] for k, v in owner.params.items() if hasattr(v, "tag") and v.tag == "const"}
         names = [n for n in names if n not in consts]
     out = {}
